@@ -968,17 +968,31 @@ func (ss *SpecSet) loadFile(path string) error {
 	return nil
 }
 
-// visible reports whether a clause takes part in a run for property prop.
-func (c *Clause) visible(prop string) bool {
-	if len(c.Props) == 0 || prop == "" {
+// propUses: property -> properties whose clauses it imports (props/Cxx.json "uses"). Imported clauses
+// are visible (assumed where a clause of the property itself would be assumed) but the obligations
+// they generate belong to the exporting property only, whose own check discharges them.
+var propUses = map[string][]string{}
+
+func propVisible(props []string, prop string) bool {
+	if len(props) == 0 || prop == "" {
 		return true
 	}
-	for _, p := range c.Props {
+	for _, p := range props {
 		if p == prop {
 			return true
 		}
+		for _, u := range propUses[prop] {
+			if p == u {
+				return true
+			}
+		}
 	}
 	return false
+}
+
+// visible reports whether a clause takes part in a run for property prop.
+func (c *Clause) visible(prop string) bool {
+	return propVisible(c.Props, prop)
 }
 
 // owned reports whether the clause is claimed by prop (tagged with it).
